@@ -373,6 +373,7 @@ func isBlockingSocketCall(ins ssa.Instruction) bool {
 
 func ruleCancelPump(c *Ctx, m *multiModel, rule string) {
 	p := c.P
+	rulePumpBuffer(c, m, rule)
 	done := doneFields(c, m)
 	if !c.Floor(rule, "reader goroutines of "+m.T, len(m.pumps), 1) {
 		return
